@@ -137,7 +137,14 @@ func runIn(dir string, name string, args ...string) (string, error) {
 // every schema of the repository plus /verif/corpus).
 var quickCorpus = map[string]bool{"structs.thrift": true, "unions.thrift": true, "enums.thrift": true, "exceptions.thrift": true}
 
-func prepareInst(repo, verif, tier string) (*InstInfo, error) {
+// quickCorpusByProp: which schemas a property's quick check regenerates.
+var quickCorpusByProp = map[string]map[string]bool{
+	"C05": {"structs.thrift": true, "unions.thrift": true, "enums.thrift": true, "exceptions.thrift": true, "wide.thrift": true},
+	"C15": {"structs.thrift": true, "exceptions.thrift": true, "redact.thrift": true},
+	"C13": {"containers.thrift": true},
+}
+
+func prepareInst(repo, verif, tier, prop string) (*InstInfo, error) {
 	root, err := os.MkdirTemp("", "gvc-inst-")
 	if err != nil {
 		return nil, err
@@ -174,7 +181,11 @@ func prepareInst(repo, verif, tier string) (*InstInfo, error) {
 		if _, err := os.Stat(filepath.Join(verif, "corpus", base)); err == nil {
 			fromRepo = false
 		}
-		if tier != "thorough" && fromRepo && !quickCorpus[base] {
+		if sel, ok := quickCorpusByProp[prop]; ok && tier != "thorough" {
+			if !sel[base] {
+				continue
+			}
+		} else if tier != "thorough" && fromRepo && !quickCorpus[base] {
 			continue
 		}
 		args := []string{"--out", filepath.Join(ii.dir, "gen"), "--pkg-prefix", "example.com/corpus/gen", "--thrift-root", corpus}
@@ -327,6 +338,9 @@ func (ii *InstInfo) addContracts(p *Program, cs *ContractSet, prop string) error
 	cs.Macros["unfoldMap"] = &Macro{Kind: "axiom", Params: []string{"a", "kt", "vt", "k", "q"}, Body: "mapEnd(a, kt, vt, k, q) == ite(k <= 0, q, mapEnd(a, kt, vt, k - 1, skipEnd(a, vt, skipEnd(a, kt, q))))"}
 	if prop == "C15" {
 		return ii.addRedactionContracts(p, cs, prop)
+	}
+	if prop == "C13" {
+		return ii.addAllocContracts(p, cs, prop)
 	}
 	var fns []*ssa.Function
 	for f := range p.allFns {
@@ -506,6 +520,61 @@ func (ii *InstInfo) addPresence(f *ssa.Function, ct *Contract) {
 		ct.Ensures = append(ct.Ensures, cl("ensures", "required_"+fl.Name, fmt.Sprintf("err == nil ==> hasField(rin(sr), p0, %d, %d)", fl.ID, fl.Code)))
 		ii.presence++
 	}
+}
+
+// addAllocContracts (C13): every emitted container decoder carries an
+// allocation-size obligation at each make: at most 1 MiB worth of elements may
+// be reserved on the strength of a declared count alone.
+func (ii *InstInfo) addAllocContracts(p *Program, cs *ContractSet, prop string) error {
+	var fns []*ssa.Function
+	for f := range p.allFns {
+		pk := fnPkg(f)
+		if pk == nil || !strings.HasPrefix(pk.Path(), "example.com/corpus/") || !isDecoder(f) {
+			continue
+		}
+		switch firstStreamCall(f) {
+		case "ReadListBegin", "ReadSetBegin", "ReadMapBegin":
+			fns = append(fns, f)
+		default:
+			// other decoders: only their effect on the cursor bounds is needed
+			// here (that clause is an obligation of the C05 check)
+			tc := newContract(f, prop)
+			tc.Props = nil
+			tc.Trusted = true
+			req := validR
+			if f.Signature.Recv() != nil && len(f.Params) > 0 {
+				req = f.Params[0].Name() + " != nil && " + validR
+			}
+			tc.Requires = append(tc.Requires, cl("requires", "", req))
+			tc.Modifies = append(tc.Modifies, cl("modifies", "", "all"))
+			tc.Ensures = append(tc.Ensures, cl("ensures", "valid", "rpos(sr) >= 0 && rpos(sr) <= 4611686018427387904"))
+			if _, dup := cs.ByFunc[tc.Func]; !dup {
+				cs.ByFunc[tc.Func] = tc
+				cs.Order = append(cs.Order, tc)
+			}
+		}
+	}
+	sort.Slice(fns, func(i, j int) bool { return fns[i].String() < fns[j].String() })
+	for _, f := range fns {
+		ct := newContract(f, prop)
+		ct.Ensures = append(ct.Ensures, cl("ensures", "valid", "rpos(sr) >= 0 && rpos(sr) <= 4611686018427387904"))
+		ct.Requires = append(ct.Requires, cl("requires", "", validR))
+		ct.Modifies = append(ct.Modifies, cl("modifies", "", "all"))
+		ct.Allocs = append(ct.Allocs, cl("alloc", "make", "n * esize <= 1048576"))
+		for n := 1; n <= len(findLoops(f)); n++ {
+			ct.LoopInv[n] = []*Clause{cl("invariant", "", validR)}
+		}
+		if _, dup := cs.ByFunc[ct.Func]; dup {
+			continue
+		}
+		cs.ByFunc[ct.Func] = ct
+		cs.Order = append(cs.Order, ct)
+		ii.funcs++
+	}
+	if ii.funcs == 0 {
+		return fmt.Errorf("no container decoder found in the regenerated corpus")
+	}
+	return nil
 }
 
 // addRedactionContracts (C15): for every emitted struct-like type with fields
